@@ -464,8 +464,8 @@ static void random_values(int s, vf_rng *r, int n)
 }
 
 /* ----------------------------------------------------------------- cases -- */
-static int n_wide_blocks(void) { return vf_thorough ? 48 : 4; }
-static int n_random(void) { return vf_thorough ? 4000 : 600; }
+static int n_wide_blocks(void) { return vf_thorough ? 48 : 8; }
+static int n_random(void) { return vf_thorough ? 4000 : 1000; }
 /* blocks per source type */
 static int blocks_of(int s)
 {
@@ -588,7 +588,7 @@ void vf_case(uint64_t idx, vf_rng *r)
 	vf_count("observe:query-code-differs", cnt.code_differs);
 	if (tsize(s) <= 2) vf_count("exhaustive:blocks", 1);
 	if (cnt.compared || cnt.refused_unrepresentable) vf_nontrivial();
-	vf_sample("%s source '%c' target 0x%zx block %d: %d values (%s), accepted %llu (all compared with the oracle), refused %llu (%llu not representable)",
+	if (idx % 61 == 3) vf_sample("%s source '%c' target 0x%zx block %d: %d values (%s), accepted %llu (all compared with the oracle), refused %llu (%llu not representable)",
 	          fname, s, (size_t) tcode, block, nvals, tsize(s) <= 2 ? "exhaustive range" : "boundary list + PRNG",
 	          (unsigned long long) cnt.accepted, (unsigned long long) cnt.refused, (unsigned long long) cnt.refused_unrepresentable);
 }
